@@ -526,7 +526,7 @@ class Interp:
         if key in cache:
             return cache[key]
         cache[key] = None
-        rx = self._regex_of(node)
+        rx = self._regex_of(node, cls.module)
         if rx is not None:
             cache[key] = rx
             return rx
@@ -605,10 +605,10 @@ class Interp:
     REGEX_METHODS = ("match", "search", "fullmatch", "sub", "subn", "split", "findall", "finditer")
 
     @staticmethod
-    def _regex_of(node):
+    def _regex_of(node, mod=None):
         """('regex', pattern, flags source or None) for ``re.compile(<constant>[, flags])``."""
-        from .astutil import dotted
-        if isinstance(node, ast.Call) and dotted(node.func) == "re.compile" and node.args and isinstance(node.args[0], ast.Constant) \
+        from .astutil import xdotted
+        if isinstance(node, ast.Call) and xdotted(node.func, mod) == "re.compile" and node.args and isinstance(node.args[0], ast.Constant) \
                 and isinstance(node.args[0].value, str):
             fl = node.args[1] if len(node.args) > 1 else next((k.value for k in node.keywords if k.arg == "flags"), None)
             return ("regex", const(node.args[0].value), ("extname", ast.unparse(fl)) if fl is not None else NONE)
@@ -772,7 +772,7 @@ class Interp:
 
     def _resolved(self, r, name):
         if r[0] == "global":
-            rx = self._regex_of(r[1].globals.get(r[2]))
+            rx = self._regex_of(r[1].globals.get(r[2]), r[1])
             if rx is not None:
                 return rx
             gv = r[1].globals.get(r[2])
